@@ -4,9 +4,10 @@ import ipaddress
 import itertools
 import os
 import re
+import time
 from concurrent.futures import ThreadPoolExecutor
 
-from lib import gN, gbool, gnat, glist, gopt
+from lib import gN, gbool, gnat, glist, gopt, hexs
 
 HEADER = "From CJ Require Import Common.Base C09.Model C09.Run.\n"
 DRIVER = {"zz_verif_driver_test.go": "c09/sched_driver_test.go"}
@@ -143,7 +144,10 @@ def gen_sched_cases(ctx):
         (mk_reg(1, 0, 1, "api", False, False), mk_reg(2, 0, 0, "api", False, False)),            # different keys
     ]
     for pi, (a, b) in enumerate(pairs):
-        for il in interleavings([5, 5]):
+        ils = list(interleavings([5, 5]))
+        if quick and pi >= 3:
+            ils = rng.sample(ils, 80)
+        for il in ils:
             cases.append(scenario([a, b], [], sched_json(il), share=(pi == 0 and len(cases) % 7 == 0), tag="pair%d" % pi))
     # (2) two workers of one key and a connection handler: exhaustive in thorough, sampled in quick
     a, b = pairs[0]
@@ -199,6 +203,15 @@ def gen_sched_cases(ctx):
             i, j = rng.randrange(len(seq)), rng.randrange(len(seq))
             seq[i], seq[j] = seq[j], seq[i]
         cases.append(scenario([a, b], sw, sched_json(seq), tag="swept-in-flight"))
+    # the same with the second delivery carrying a covert the policy rejects, looked up right after the first ingest completes
+    b2 = mk_reg(1, 0, 3, "api", False, False)
+    base2 = [0, ("age", 0, AGES[1]), 2, 2, 2, 1, 0, 0, 0, 0, 3, 3, 1, 1, 1, 2, 2]
+    cases.append(scenario([a, b2], sw, sched_json(base2), tag="swept-in-flight"))
+    for _ in range(20 if quick else 200):
+        seq = list(base2)
+        i, j = rng.randrange(5, len(seq)), rng.randrange(5, len(seq))
+        seq[i], seq[j] = seq[j], seq[i]
+        cases.append(scenario([a, b2], sw, sched_json(seq), tag="swept-in-flight"))
     for c in (ctx.replay or {}).get("sched_cases", []):
         cases.insert(0, c)
     return cases
@@ -273,6 +286,69 @@ def case_term(c, r, split):
         glist([gnat(k) for k in range(nkeys)]), glist(steps),
         gnat(s["dup"]), gnat(s["err"]), gnat(s["blocked"]), gnat(s["new"]), s["active"], gnat(r["shares"]))
 
+
+
+# ---------------------------------------------------------------- compact byte encoding (decoded by C09.Run.dec_case)
+def _b(x):
+    return max(0, min(255, int(x)))
+
+
+def enc_thread(c, th):
+    if th["kind"] == "worker":
+        r = c["regs"][th["reg"]]
+        v4 = ":" not in PHANTOMS[r["phi"]]
+        out = [0, r["key"], r["ci"], int(r["transport"] == 0), int(r["source"] == "detector"), len(POLICIES)]
+        out += [int(ph_blocked(PHANTOMS[r["phi"]], p)) for p in POLICIES]
+        out += [int(cov_ok(r["ci"], p)) for p in POLICIES]
+        out += [int((not r["prescanned"]) and v4), int(r["live"])]
+        return out
+    if th["kind"] == "sweeper":
+        return [1, max(1, th["to"])]
+    if th["kind"] == "handler":
+        return [2, c["regs"][th["reg"]]["key"]]
+    return [3, th["to"]]
+
+
+def enc_case(c, r, split):
+    nkeys = len({x["key"] for x in c["regs"]})
+    out = [int(split), int(c["share"]), len(c["threads"])]
+    for th in c["threads"]:
+        out += enc_thread(c, th)
+    events_by_step = {}
+    for e in r["events"]:
+        events_by_step.setdefault(e["step"], []).append(e)
+    steps = list(zip(c["schedule"], r["steps"]))
+    out += [nkeys, len(steps)]
+    for i, (st, ob) in enumerate(steps):
+        if st["t"] < 0:
+            out += [1, st["age_key"], AGES.index(st["age_ns"])]
+        else:
+            out += [0, st["t"], ob["removed"] if ob["removed"] >= 0 else 255]
+        out.append(POINTS.get(ob["point"], 12 if ob["point"].startswith("panic") else 13))
+        for e in ob["snap"]:
+            cs = covert_state(c, e)
+            flags = (1 if e["valid"] else 0) | (2 if cs else 0) | (4 if e["timeout"] else 0) | (8 if e["used"] else 0)
+            out += [e["obj"] + 1 if e["obj"] >= 0 else (0 if e["obj"] == -1 else 250), flags, _b(e["regcount"])]
+        evs = []
+        kind = c["threads"][st["t"]]["kind"] if 0 <= st["t"] < len(c["threads"]) else ""
+        if kind == "handler" and ob.get("found"):
+            hk = c["regs"][c["threads"][st["t"]]["reg"]]["key"]
+            for o, cv in zip(ob["found"], ob["found_covert"]):
+                if key_of_obj(c, o) == hk:
+                    res = COVERTS[c["regs"][o]["ci"]][1]
+                    evs += [2, hk, o, int(res is not None and cv == res)]
+        for e in events_by_step.get(i, []):
+            o = e["obj"]
+            if e["kind"] == "announce":
+                res = COVERTS[c["regs"][o]["ci"]][1] if 0 <= o < len(c["regs"]) else None
+                evs += [0, _b(key_of_obj(c, o)), o if o >= 0 else 250, int(res is not None and e["covert"] == res)]
+            else:
+                evs += [1, _b(key_of_obj(c, o)), 0, 0]
+        out.append(len(evs) // 4)
+        out += evs
+    s = r["stats"]
+    out += [_b(s["dup"]), _b(s["err"]), _b(s["blocked"]), _b(s["new"]), _b(s["active"]) if s["active"] >= 0 else 255, _b(r["shares"])]
+    return bytes(_b(x) for x in out)
 
 # ---------------------------------------------------------------- direct oracle on the observables
 def passes0(r):
@@ -458,9 +534,11 @@ def race_key(block):
             line = open(path).read().splitlines()[int(m.group(2)) - 1]
         except Exception:
             line = ""
-        for f in ("PhantomSelector", "GeoIP"):
-            if f in line:
-                return "OnReload/" + f
+        low = line.lower()
+        if "phantom" in low and "selector" in low:
+            return "OnReload/PhantomSelector"
+        if "geoip" in low:
+            return "OnReload/GeoIP"
         return "OnReload/policy-lists"
     accs = re.findall(r"(?:Read|Write|Previous read|Previous write) at .*?\n((?:\s+\S+\n\s+\S+\n)+)", block)
     names = []
@@ -532,10 +610,14 @@ def run(ctx):
                        "non-trivial = hash-distinct (scenario, schedule) in which at least one registration is tracked or rejected; "
                        "exhaustive interleavings for 2 workers of one key (and with a handler in the thorough tier), sampled beyond")
     ctx.level = "proof"
+    tm = ctx.cov.setdefault("timing_s", {})
+    t0 = time.time()
     ctx.coq_props()
     rc_ex, out_ex = ctx.coq_make(["C09/Examples.vo", "C09/Refuted.vo"])
     if rc_ex != 0:
         ctx.broken("proof-obligation", "Examples.v / Refuted.v (non-vacuity and necessity witnesses) no longer check: " + out_ex[-500:])
+    tm["coq_build"] = round(time.time() - t0, 1)
+    t0 = time.time()
     if ctx.replay and "distrib" in ctx.replay and "sched_cases" not in ctx.replay:
         run_distrib(ctx, split)
         return
@@ -548,6 +630,8 @@ def run(ctx):
         f_dist = ex.submit(run_distrib, ctx, split)
         rc, out, res = f_sched.result()
         f_dist.result()
+    tm["go_sched_and_distrib"] = round(time.time() - t0, 1)
+    t0 = time.time()
     if res is None or len(res) != len(cases):
         ctx.broken("driver", "Go driver (sched) produced no results: %s" % out[-1200:])
         return
@@ -574,24 +658,28 @@ def run(ctx):
         if any(e["kind"] == "update" for e in r["events"]):
             ctx.cov["histogram"]["handler/activated"] = ctx.cov["histogram"].get("handler/activated", 0) + 1
         oracle(ctx, c, r, i)
-        terms.append(case_term(c, r, split))
+        terms.append(hexs(enc_case(c, r, split)))
     ctx.sample({"scenario": {"regs": [reg_json(x) for x in cases[0]["regs"]], "schedule": cases[0]["schedule"]},
                 "observed_last_step": res[0]["steps"][-1] if res[0]["steps"] else None, "events": res[0]["events"]})
     ctx.require_kinds(["sched/pair0", "sched/pair+handler", "sched/trio", "sched/mixed", "sched/swept-in-flight",
                        "point/after-track", "point/after-covert", "point/probe", "point/end", "point/collected",
                        "point/before-remove", "point/found", "point/disabled", "sweep/removed", "ingest/duplicate",
                        "handler/activated", "distrib/idle", "distrib/busy", "distrib/overload"])
-    mm = ctx.coq_mismatches("sched", HEADER, terms, "chk", shard=max(60, len(terms) // 16 + 1), need_vo=["C09/Run.vo"])
+    tm["oracle_and_encode"] = round(time.time() - t0, 1)
+    t0 = time.time()
+    mm = ctx.coq_mismatches("sched", HEADER, terms, "chkb", shard=max(60, len(terms) // 16 + 1), need_vo=["C09/Run.vo"])
     if mm:
         ctx.cov["mismatches"] += len(mm)
         i = mm[0]
-        where = ctx.coq_show("bad", HEADER, "let '(split, share, ths, ks, steps, st, sh) := (%s) in first_bad split share ks (init ths) steps 0"
-                             % terms[i])
+        where = ctx.coq_show("bad", HEADER, "first_badb %s" % terms[i])
         ctx.broken("correspondence", "model C09 and the real pipeline disagree on %d schedule(s); first: case %d tag=%s, first differing step: %s"
                    % (len(mm), i, cases[i].get("tag"), where[-200:]),
                    {"sched_cases": [cases[i]], "observed": res[i]})
+    tm["coq_eval"] = round(time.time() - t0, 1)
+    t0 = time.time()
     # free-running stress; under the race detector in the thorough tier
     run_stress(ctx, race=False)
+    tm["stress"] = round(time.time() - t0, 1)
     if ctx.tier == "thorough" or os.environ.get("VERIF_C09_RACE") == "1":
         run_stress(ctx, race=True)
     else:
